@@ -52,7 +52,10 @@ func pFloat(t string, pos bool) pval { return pval{typ: "FLOAT", text: t, truth:
 var c20FnKinds = []string{"echo", "int", "string", "bool-false", "null", "void", "float", "array", "hash", "count", "panic", "empty-string", "zero", "negative", "collect", "collect"}
 
 type c20Model struct {
-	vars   map[string]pval
+	// unspecified is set when the script used "nothing" (a void result)
+	// where a value is needed: the property does not say what must happen
+	unspecified bool
+	vars        map[string]pval
 	fns    map[string]string // name -> kind
 	counts map[string]int64
 	trace  []string
@@ -125,7 +128,8 @@ func (m *c20Model) eval(e *pexpr, fields map[string]pval) (pval, bool) {
 				return pval{}, true
 			}
 			if v.void {
-				// nothing was produced where a value is needed: run-time error
+				// nothing was produced where a value is needed
+				m.unspecified = true
 				return pval{}, true
 			}
 			args = append(args, v)
@@ -178,6 +182,7 @@ func (m *c20Model) eval(e *pexpr, fields map[string]pval) (pval, bool) {
 // run executes the statements; returns the result (Null if no return) and failure.
 func (m *c20Model) run(stmts []*pstmt, fields map[string]pval) (pval, bool) {
 	m.trace = nil
+	m.unspecified = false
 	for _, s := range stmts {
 		v, failed := m.eval(s.e, fields)
 		if failed {
@@ -186,11 +191,13 @@ func (m *c20Model) run(stmts []*pstmt, fields map[string]pval) (pval, bool) {
 		switch s.kind {
 		case "assign":
 			if v.void {
+				m.unspecified = true
 				return pval{}, true
 			}
 			m.vars[s.target] = v
 		case "return":
 			if v.void {
+				m.unspecified = true
 				return pval{}, true
 			}
 			return v, false
@@ -573,7 +580,19 @@ func (p *c20) runAPI(c *verifsim.Chooser, st *Stats, render bool) *Outcome {
 		return false
 	}
 	for i := 0; i < nops && !stop(); i++ {
-		switch c.Intn(6) {
+		switch c.Intn(7) {
+		case 6:
+			// register a function again under a name that is already taken
+			// (replacing the earlier one), without preparing again
+			name := c20FnNames[c.Intn(nf)]
+			kind := c20FnKinds[c.Intn(len(c20FnKinds))]
+			if old := g.fnKind[name]; (old == "void" || old == "panic") != (kind == "void" || kind == "panic") {
+				// keep statement-position functions void (the script was
+				// generated for that) and value functions valued
+				break
+			}
+			g.fnKind[name] = kind
+			addFn(name, kind)
 		case 0:
 			setVar(c20VarNames[c.Intn(4)], g.value())
 		case 1:
@@ -685,6 +704,15 @@ func (p *c20) runAPI(c *verifsim.Chooser, st *Stats, render bool) *Outcome {
 				}
 				// stop the history: the three evaluators may legitimately
 				// have diverged in state from here on
+				return o
+			}
+			if model.unspecified {
+				// only "no panic" (checked above) and Run-vs-Execute agreement
+				// are required of this run; the history ends here
+				st.probe("void-used-as-a-value")
+				if rs[0].Failed != rs[2].Failed {
+					o.violate("C20/run-vs-execute", "fails-differently", "Execute gives %s and Run gives %s", rs[0].String(), rs[2].String())
+				}
 				return o
 			}
 			if wantFail {
